@@ -3,7 +3,9 @@
 package ot
 
 import (
+	"github.com/cronokirby/saferith"
 	"github.com/taurusgroup/multi-party-sig/internal/params"
+	"github.com/taurusgroup/multi-party-sig/pkg/math/curve"
 	"github.com/taurusgroup/multi-party-sig/internal/vsym"
 	"github.com/taurusgroup/multi-party-sig/pkg/hash"
 )
@@ -97,6 +99,65 @@ func H_C13_CorreShape() {
 	vsym.Assert(!panicked, "a column of the wrong length never crashes the sender")
 	vsym.Assert(panicked || err2 != nil, "a column of the wrong length is refused")
 	vsym.Reach("correshape-checked")
+}
+
+// c13Setups builds a consistent pair of correlated-OT setups from concrete pseudo-random keys (what the setup protocol
+// produces: the sender holds Delta and, for every i, the key selected by bit i of Delta).
+func c13Setups() (*CorreOTSendSetup, *CorreOTReceiveSetup) {
+	var recv CorreOTReceiveSetup
+	var send CorreOTSendSetup
+	x := uint32(2463534242)
+	next := func() byte { x ^= x << 13; x ^= x >> 17; x ^= x << 5; return byte(x >> 11) }
+	for i := range send._Delta {
+		send._Delta[i] = next()
+	}
+	for i := 0; i < params.OTParam; i++ {
+		for j := 0; j < params.OTBytes; j++ {
+			recv._K_0[i][j], recv._K_1[i][j] = next(), next()
+		}
+		if bitAt(i, send._Delta[:]) == 1 {
+			send._K_Delta[i] = recv._K_1[i]
+		} else {
+			send._K_Delta[i] = recv._K_0[i]
+		}
+	}
+	return &send, &recv
+}
+
+// H_C13_MultiplyTamper (NOT registered in checks/C13.json: about 100 s and 10 GB per path inside the engine): the whole multiplication protocol (real NewMultiplySender / NewMultiplyReceiver / Round1 /
+// Round2 over the real additive, extended and correlated OT code) executed with concrete inputs from the boundary lattice
+// {0, 1, q-1, 12345} on a concrete setup: the two output shares add up to alpha*beta; and when ONE pad of the sender's
+// message is altered at a position chosen per path, the receiver's Round2 either reports an error or the shares still
+// add up to the product.
+func H_C13_MultiplyTamper() {
+	group := curve.Secp256k1{}
+	send, recv := c13Setups()
+	qm1 := group.NewScalar().SetNat(new(saferith.Nat).SetUint64(1)).Negate()
+	lattice := []curve.Scalar{group.NewScalar(), group.NewScalar().SetNat(new(saferith.Nat).SetUint64(1)), qm1, group.NewScalar().SetNat(new(saferith.Nat).SetUint64(12345))}
+	alpha := lattice[vsym.Choose("alpha", len(lattice))]
+	beta := lattice[vsym.Choose("beta", len(lattice))]
+	ctx := hash.New()
+	sender := NewMultiplySender(ctx.Clone(), send, alpha)
+	receiver, err := NewMultiplyReceiver(ctx.Clone(), recv, beta)
+	vsym.Assert(err == nil, "receiver starts")
+	msgR1 := receiver.Round1()
+	msgS1, shareA, err := sender.Round1(msgR1)
+	vsym.Assert(err == nil, "sender accepts the honest receiver message")
+	want := group.NewScalar().Set(alpha).Mul(beta)
+	tamper := vsym.Choose("tamper", 1+vsym.Param("positions", 6))
+	if tamper > 0 {
+		// alter the pad for choice 0 at one gadget position (spread over the batch, never the last position only)
+		pos := []int{0, 1, 131, 300, 517, 670}[tamper-1]
+		pads := msgS1.Msg.CombinedPads
+		pads[pos][0][len(pads[pos][0])-1] ^= 1
+	}
+	shareB, err := receiver.Round2(msgS1)
+	if tamper == 0 {
+		vsym.Assert(err == nil && group.NewScalar().Set(shareA).Add(shareB).Equal(want), "honest run: the shares add up to alpha*beta")
+	} else {
+		vsym.Assert(err != nil || group.NewScalar().Set(shareA).Add(shareB).Equal(want), "altered pad: an error, or a still-correct product")
+	}
+	vsym.Reach("multiply-tamper-checked")
 }
 
 // H_C13_FieldOps: eq is equality and shl1 is a one-bit left shift of the 256-bit little-endian value.
